@@ -118,6 +118,14 @@ pub fn materialise(pre: &Tree, root: &str) -> Result<(), String> {
             std::os::unix::fs::symlink(text, k).map_err(|e| e.to_string())?;
         }
     }
+    // owners other than the backend's default (needs privilege; the unprivileged sweep leaves such trees out)
+    for (k, n) in &pre.nodes {
+        if is_under(k, root) && k != root && n.kind() != Kind::Link && n.owner() != (DEF_UID, DEF_GID) {
+            let (u, g) = n.owner();
+            let (du, dg) = unsafe { (libc::geteuid(), libc::getegid()) };
+            std::os::unix::fs::chown(k, Some(if u == DEF_UID { du } else { u }), Some(if g == DEF_GID { dg } else { g })).map_err(|e| e.to_string())?;
+        }
+    }
     // modes last (deepest first so restrictive directory modes cannot lock the walk out; we are uid 0 anyway)
     for (k, n) in pre.nodes.iter().rev() {
         if is_under(k, root) && k != root && n.kind() != Kind::Link {
@@ -282,6 +290,11 @@ pub fn sweep_trees(c: &Ctx, den: u64, unprivileged: bool) {
                     seq.push(Op::Paths(p.to_string()));
                 }
             }
+            // a listing from the case root after every mutating call, refused ones included: what a call left in a
+            // directory's child list only shows to a walk from above, not to the per-path observers
+            if call.is_mutator() {
+                seq.push(Op::AllPaths("@".to_string()));
+            }
             let case = DiffCase { setup: setup.clone(), calls: seq };
             if ci % 50 == 0 {
                 mark("diff", &serde_json::to_string(&case).unwrap());
@@ -379,7 +392,7 @@ fn setup_for(t: &c09::TreeSpec) -> Option<Vec<Op>> {
 }
 
 pub fn run(c: &Ctx) {
-    c.set_rule("(a) every tree of the C09 namespace that lies in the property's pre-state domain (every link resolves to an existing non-link entry), mirrored under the same absolute sandbox prefix in Memfs and - from the Memfs dump, with std::fs only - on tmpfs; the two independent observers must agree before the call; x every single-path call form (52, incl. chmod_b with follow / symbolic expressions and chown_b variants) on 10 argument paths and every two-path form (copy, move_p, symlink) on all ordered pairs; arguments through a link as an intermediate component are excluded by construction (counted). quick: a seeded quarter of the trees; thorough: all. (b) proptest histories of up to 25 calls from small random states (the step that leaves the domain is still compared, the history stops there). Oracle: same Ok/Err outcome, same values (owners after renaming each backend's default owner, unordered traversals as multisets), same tree seen by an independent std::fs walker (names, kinds, bytes, link targets, permission bits). Config: umask 022; euid 0 for everything and euid 65534 (a worker process that dropped privileges; ownership-changing calls left out, 1/24 resp. 1/3 of the trees) for the tree x call sweep. Non-trivial = call whose target exists, or a failing call; distinct by (tree, call).");
+    c.set_rule("(a) every tree of the C09 namespace that lies in the property's pre-state domain (every link resolves to an existing non-link entry), mirrored under the same absolute sandbox prefix in Memfs and - from the Memfs dump, with std::fs only - on tmpfs; the two independent observers must agree before the call; x every single-path call form (52, incl. chmod_b with follow / symbolic expressions and chown_b variants) on 10 argument paths and every two-path form (copy, move_p, symlink) on all ordered pairs, each two-path call followed by reads of destination and source and each mutating call - refused ones included - by a recursive listing from the case root (what a call left in a directory's child list shows only to a walk from above); arguments through a link as an intermediate component are excluded by construction (counted). quick: a seeded quarter of the trees; thorough: all. (b) proptest histories of up to 25 calls from small random states (the step that leaves the domain is still compared, the history stops there). Oracle: same Ok/Err outcome, same values (owners after renaming each backend's default owner, unordered traversals as multisets), same tree seen by an independent std::fs walker (names, kinds, bytes, link targets, permission bits). Config: umask 022; euid 0 for everything and euid 65534 (a worker process that dropped privileges; ownership-changing calls left out, 1/24 resp. 1/3 of the trees) for the tree x call sweep. Non-trivial = call whose target exists, or a failing call; distinct by (tree, call).");
     c.assume("kernel + tmpfs semantics of this sandbox; euid sampled at 0 and 65534 only; set_cwd/cwd are compared in a dedicated serial step because the process cwd is global");
     unsafe {
         libc::umask(0o022);
@@ -466,7 +479,7 @@ pub fn run(c: &Ctx) {
 }
 
 /// turn every JSON string that is an absolute path ("/x", "/") into "@/x" / "@"
-fn reroot(json: &str) -> String {
+pub fn reroot(json: &str) -> String {
     let v: Value = serde_json::from_str(json).unwrap();
     fn walk(v: &mut Value) {
         match v {
